@@ -94,6 +94,21 @@ def gen_case(ctx):
     return {"entity": e, "maps": maps, "via": rng.choice(["method", "transform"])}
 
 
+def fixed_cases(tier):
+    """shapes that declare their own geometry (spheres), assembled once before the transformation (seed % 4 == 0), under
+    every map kind: the random part reaches this combination only a few times per run"""
+    import random
+
+    out = []
+    for kind in ("hemisphere",):
+        for k in range(12 if tier == "quick" else 80):
+            rng = random.Random(f"fixed/{kind}/{k}")
+            maps = gen_maps(rng)
+            out.append({"entity": {"group": "shape", "kind": kind, "seed": 4 * (1000 + k)}, "maps": maps,
+                        "via": ["method", "transform"][k % 2]})
+    return out
+
+
 # ------------------------------------------------------------------------------------------------ entities
 CTOR_ARRAYS = []  # float ndarrays handed to constructors (spline / curve points): (array, snapshot)
 
